@@ -26,13 +26,20 @@ LEAF_KEYED_ITEMS = {"live.items()": "liveness domain: keys are leaf place ids (S
 def run(ctx: Ctx) -> None:
     idx = ctx.idx
     n_sites = 0
+    from .shared import error_builders, raised_diagnostic
+    builders = error_builders(idx, LC, ERRORS)  # helpers that only construct the diagnostic: the decision is where they are raised
     for f in idx.iter_funcs((LC,)):
+        if f.node.name in builders:
+            continue
         parents: dict[ast.AST, ast.AST] = {}
         for n in ast.walk(f.node):
             for c in ast.iter_child_nodes(n):
                 parents[c] = n
         for n in ast.walk(f.node):
-            if not (isinstance(n, ast.Call) and isinstance(n.func, ast.Name) and n.func.id in ERRORS):
+            if not isinstance(n, ast.Raise):
+                continue
+            diag = raised_diagnostic(f.node, n, ERRORS, builders)
+            if diag is None:
                 continue
             n_sites += 1
             loops = []
@@ -49,7 +56,7 @@ def run(ctx: Ctx) -> None:
                 if over_leaves or it in LEAF_KEYED_ITEMS:
                     leaf_loop = lp
                     break
-            key = f"{f.qualname}#{n.func.id}-decided-per-leaf"
+            key = f"{f.qualname}#{diag}-decided-per-leaf"
             where = f"{f.module.rel}:{n.lineno}"
             if leaf_loop is None:
                 ctx.violation("R-C06.6", key, where, {"enclosing_loops": [ast.unparse(lp.iter)[:60] for lp in loops]},
